@@ -27,6 +27,7 @@ WINDOPS = ["?", "EQ", "GE", "GT", "LE", "LT", "NE", "SET", "CLR"]
 K15 = "metaflush+reopen/double-needs-more-than-15-digits"
 KSUB = "metaflush+reopen/subnormal-double-literal-rejected"
 KNZ = "metaflush+reopen/negative-zero-literal"
+KNZI = "metaflush+reopen/negative-zero-imaginary-part-without-complex-flag"
 KHID = "dirfile_standards/hidden-entry-skips-type-version"
 KINC = "metaflush+reopen/include-namespace-and-prefix"
 KNSV = "dirfile_standards/fragment-namespace-ignored"
@@ -35,7 +36,7 @@ KINH = "metaflush+reopen/inherited-fragment-attributes-not-persisted"
 KMOVREF = "move/reference-field-keeps-old-name"
 KDEREF = "delete-deref/client-fragment-not-marked-modified"
 KDELREF = "delete/reference-update-not-marked-modified"
-KMOVAFF = "move/codes-without-target-affixes-crash-metaflush"
+KMOVAFF = "move/codes-without-target-affixes-unflushable"
 KREFREPR = "metaflush+reopen/reference-name-ending-in-dot-r-i-m-a"
 KAMB = "dirfile_standards/number-like-scalar-code-needs-version-8"
 
@@ -198,7 +199,8 @@ def gen_case(g, cid, hard, rich):
     # fragment attributes of the root format file (set before any /INCLUDE so that a new
     # subfragment inherits them; see the finding on inherited attributes)
     if rich and r.random() < 0.3:
-        c.cmds.append("FRAGATTR 0 %x %d %d -1" % (r.choice([0, 4, 8]), r.choice([-1, 0, 1, 2, 3]), r.choice([0, 0, 5, 2 ** 40, 2 ** 63 - 1])))
+        c.cmds.append("FRAGATTR 0 %x %d %d %s" % (r.choice([0, 4, 8]), r.choice([-1, 0, 1, 2, 3]), r.choice([0, 0, 5, 2 ** 40, 2 ** 63 - 1]),
+                                                  r.choice(["-1", "-1", "2000000", "4000000", "7000000", "6000000"])))
         c.pure = False
     # optional subfragment with namespace / prefix / suffix (fields are added to it below)
     c.inc = None
@@ -909,9 +911,11 @@ def classify_diff(a, b, stable, gtext):
             return None
         if DBL_RE.sub("#", x) != DBL_RE.sub("#", y):
             return None
-        for u, w in zip(hs, hy):
+        for pos, (u, w) in enumerate(zip(hs, hy)):
             if u != w:
                 kk = unstable_key(int(u, 16))
+                if kk == KNZ and pos % 2 == 1 and ";" in x:
+                    kk = KNZI       # imaginary part of an entry written without the complex-scalar flag
                 if not kk:
                     return None
                 keys.add(kk)
@@ -991,6 +995,7 @@ def main():
             (KREPRZ, ["OPEN 0", "INC 0 %s - %s -" % (hx(b"sub"), hx(b"p")), "ADD PHASE 1 - %s %s 1" % (hx(b"px"), hx(b"pr"))]),
             (KINH, ["OPEN 0", "INC 0 %s - - -" % hx(b"sub"), "FRAGATTR 0 4 -1 0 -1"]),
             (KMOVREF, ["OPEN 0", "INC 0 %s - - %s" % (hx(b"sub"), hx(b"_S")), "ADD RAW 0 - %s 088 1" % hx(b"d"), "MFLUSH", "MOVE %s 1 2" % hx(b"d")]),
+            (KNZI, ["OPEN 0", "ADD POLYNOM 0 - %s %s 1 1 %016x 8000000000000000 %016x 0" % (hx(b"p"), hx(b"in"), dbits(1.5), dbits(2.0))]),
             (KREFREPR, ["OPEN 0", "INC 0 %s %s - -" % (hx(b"sub"), hx(b"ns")), "ADD RAW 1 - %s 088 1" % hx(b"ns.i")]),
             (KAMB, ["OPEN 0", "ADD CONST 0 - %s 001 5 0" % hx(b"1e3"), "ADD PHASE 0 - %s %s 0 S 0 %s -1" % (hx(b"ph"), hx(b"in"), hx(b"1e3")), "STD 6"]),
             (KMOVAFF, ["OPEN 0", "INC 0 %s - - %s" % (hx(b"sub"), hx(b"_S")), "ADD CONST 0 - %s 001 5 0" % hx(b"k"),
@@ -1076,6 +1081,11 @@ def main():
             if tl:
                 maxlen = min(2 * sum(tl) // len(tl), max(tl), 80)
         c.maxlen = maxlen
+        # a fragment that was not rewritten by the last flush still declares the version of the flush that wrote it
+        m0 = re.search(rb"^/VERSION (\d+)$", r_["text"][0], re.M)
+        if m0 and not perm:
+            std = int(m0.group(1))
+            c.std = std
         if std >= 5:
             given = {e[0].split()[1]: e[0] for e in c.entries}
             c.M = {}
@@ -1094,6 +1104,75 @@ def main():
                 if ln and not ln.startswith(b"/") and not ln.startswith(b"#") and not ln.startswith(b"META ") and b"/" not in first_token_raw(ln):
                     jobs.append((c, "L", ln))
                     dq.append("L %d %d %s" % (10 if perm else std, 0 if perm else 1, hx(ln + b"\n")))
+    # fragment-level lines: header, /INCLUDE, /HIDDEN, /ALIAS (writer and reader model)
+    ENCN = {0x1000000: "none", 0x2000000: "text", 0x3000000: "slim", 0x4000000: "gzip", 0x5000000: "bzip2", 0x6000000: "lzma",
+            0x7000000: "sie", 0x8000000: "zzip", 0x9000000: "zzslim", 0xa000000: "flac"}
+    HDR = (b"/VERSION ", b"/ENDIAN ", b"/PROTECT ", b"/FRAMEOFFSET ", b"/ENCODING ")
+    fjobs = []
+    n_before_f = len(dq)
+
+    def gattrs(lines):
+        out = {}
+        for l in lines:
+            if l.startswith("G "):
+                t = l.split()
+                d_ = kv(t[2:])
+                out[int(t[1])] = d_
+        return out
+    for c in allc:
+        r_ = res[c.cid]
+        if not hasattr(c, "A") or c.std < 6 or c.perm:
+            continue
+        GA = gattrs(r_["snap"]["A"]["lines"])
+        B_ = r_["snap"].get("B")
+        GB = gattrs(B_["lines"]) if B_ and not B_["err"] else {}
+        c.GA, c.GB = GA, GB
+        for i, txt in r_["text"].items():
+            if not txt or i not in GA:
+                continue
+            body = strip_header(txt)
+            hdr = [l for l in body if l.startswith(HDR)]
+            ga = GA[i]
+            vi = c.std
+            if hdr and hdr[0].startswith(b"/VERSION "):
+                vi = int(hdr[0].split()[1])
+            if vi < 6:
+                continue
+            end = int(ga["end"], 16)
+            par = int(ga["parent"])
+            force = 1 if (par >= 0 and par in GA and int(GA[par]["off"]) != 0) else 0
+            enc = ENCN.get(int(ga["enc"], 16), "-")
+            fjobs.append((c, "F", i, hdr))
+            fjobs[-1] = (c, "F", i, hdr)
+            c.fver = getattr(c, "fver", {}); c.fver[i] = vi
+            dq.append("F %d %d %d %s %s %d %s" % (vi, 1 if end & 4 else 0, 1 if end & 0x2000 else 0, ga["prot"], ga["off"], force, enc))
+            if par >= 0 and par in GA:
+                ioff, iprot = GA[par]["off"], GA[par]["prot"]
+            else:
+                ioff, iprot = "0", "0"
+            fjobs.append((c, "R", i, None))
+            dq.append("R %s %s %s" % (ioff, iprot, ",".join(hx(l + b"\n") for l in hdr) or "."))
+            if i == 0:
+                for j, gj in GA.items():
+                    if int(gj["parent"]) == 0 and ga["px"] == "-" and ga["sx"] == "-" and ga["ns"] in (".", "-"):
+                        nsj = gj["ns"] if gj["ns"] not in (".", "-") else "-"
+                        fjobs.append((c, "I", j, body))
+                        dq.append("I %d %s %s %s %s" % (1 if facts.get("INC_BLANK") else 0, gj["name"], nsj, gj["px"], gj["sx"]))
+                if c.std >= 10:
+                    for ln in body:
+                        if ln.startswith(b"/INCLUDE "):
+                            fjobs.append((c, "J", ln, None))
+                            dq.append("J %d %s" % (c.std, hx(ln + b"\n")))
+                if ga["px"] == "-" and ga["sx"] == "-" and ga["ns"] in (".", "-"):
+                    for l in r_["snap"]["A"]["lines"]:
+                        if l.startswith("F ") and " frag=0 " in l and " hidden=1" in l and " meta=0" in l and "2f" not in [l.split()[1][k:k + 2] for k in range(0, len(l.split()[1]), 2)]:
+                            fjobs.append((c, "H", l.split()[1], body))
+                            dq.append("H %d %d %s" % (c.std, c.perm, l.split()[1]))
+                        if l.startswith("F ") and " ALIAS frag=0 " in l and "2f" not in [l.split()[1][k:k + 2] for k in range(0, len(l.split()[1]), 2)]:
+                            tg = l.rsplit("target=", 1)[1].strip()
+                            fjobs.append((c, "A", l.split()[1], body))
+                            dq.append("A %d %d %s %s" % (c.std, c.perm, l.split()[1], tg))
+    n_frag_jobs = len(dq) - n_before_f
     n_main = len(dq)
     for b in norm17:
         dq.append("G 17 %016x" % b)
@@ -1127,6 +1206,7 @@ def main():
                          P, "statement" if P >= 17 else "refutation",
                          "skipped for hidden entries" if "HIDDEN_SKIPS 1" in tout else "applied to hidden entries",
                          "refutation" if "HIDDEN_SKIPS 1" in tout else "statement"))
+    fres = list(zip(fjobs, dl[n_before_f:n_before_f + n_frag_jobs]))
     # ---- judge
     n_eval = 0
     nontriv = set()
@@ -1134,7 +1214,7 @@ def main():
     kinds_seen = {}
     for c in allc:
         r_ = res[c.cid]
-        forced = getattr(c, "wkey", None) if getattr(c, "wkey", None) in (KINC, KNSV, KREPRZ, KINH, KMOVREF, KDEREF, KDELREF, KMOVAFF, KREFREPR, KAMB) else None
+        forced = getattr(c, "wkey", None) if getattr(c, "wkey", None) in (KINC, KNSV, KREPRZ, KINH, KMOVREF, KDEREF, KDELREF, KMOVAFF, KREFREPR, KAMB, KNZI) else None
 
         def viol(key, desc, rep, found=True, forced=forced):
             return chk.violation(forced if forced else key, desc, rep, found=(found or bool(forced)))
@@ -1288,6 +1368,45 @@ def main():
                 if normalise(Bc[nm][0], idx=True) != normalise(lr, idx=True):
                     viol("model/parse/%s" % lr.split()[0], "correspondence broken (reader): line %r: model parse %s, library %s" % (ln[:200], lr[:300], Bc[nm][0][:300]),
                                   dict(replay, correspondence="parse_line vs _GD_Parse*", line=ln.decode("latin1"), model=lr, impl=Bc[nm][0]), found=False)
+    n_fragline = 0
+    for (c, kind, key_, body), l in fres:
+        if getattr(c, "flagged", None) or getattr(c, "wkey", None):
+            continue
+        replay = {"kind": "case", "commands": c.cmds + ["FLUSH", "END"]}
+        n_fragline += 1
+        if kind == "F":
+            want = unhx(l) if not l.startswith("FAIL") else None
+            got = b"".join(x + b"\n" for x in body)
+            if want != got:
+                chk.violation("model/print/header", "correspondence broken (writer): fragment %d header written as %r, model print_header gives %r (case %s)" % (
+                    key_, got[:160], (want or b"?")[:160], c.cid), dict(replay, correspondence="print_header vs _GD_FlushFragment"), found=False)
+        elif kind == "R":
+            gb = c.GB.get(key_)
+            if gb is None:
+                continue
+            end = int(gb["end"], 16)
+            want = "%d 1 %d %d %s %s %s" % (c.fver.get(key_, c.std), 1 if end & 4 else 0, 1 if end & 0x2000 else 0, gb["prot"], gb["off"], ENCN.get(int(gb["enc"], 16), "-"))
+            if l.strip() != want:
+                chk.violation("model/parse/header", "correspondence broken (reader): fragment %d header: model parse_header gives %r, the library read %r (case %s)" % (
+                    key_, l.strip(), want, c.cid), dict(replay, correspondence="parse_header vs _GD_ParseDirective"), found=False)
+        elif kind in ("I", "H", "A"):
+            want = unhx(l) if not l.startswith("FAIL") else None
+            if want is None or want[:-1] not in body:
+                chk.violation("model/print/%s" % {"I": "include", "H": "hidden", "A": "alias"}[kind],
+                              "correspondence broken (writer): model line %r is not in the fragment written by the library (case %s)" % ((want or b"?")[:200], c.cid),
+                              dict(replay, correspondence="include_items / print_hidden / print_alias vs flush.c", body=[x.decode("latin1") for x in body][:40]), found=False)
+        elif kind == "J":
+            t = l.split()
+            ok = False
+            if len(t) == 4:
+                for j, gj in c.GB.items():
+                    nsj = gj["ns"] if gj["ns"] not in (".", "-") else "-"
+                    if int(gj["parent"]) == 0 and gj["name"] == t[0] and (nsj, gj["px"], gj["sx"]) == (t[1], t[2], t[3]):
+                        ok = True
+            if not ok:
+                chk.violation("model/parse/include", "correspondence broken (reader): /INCLUDE line %r: model parse_include gives %r, no fragment of the reopened database has these affixes (case %s)" % (
+                    key_[:160], l.strip(), c.cid), dict(replay, correspondence="parse_include vs _GD_Include/_GD_SetFieldAffixes"), found=False)
+    chk.cov["fragment_lines_compared"] = n_fragline
     # witnesses of listed findings
     for c in wit:
         pass
